@@ -15,6 +15,7 @@ import PolytuneModel.Thm.C10
 import PolytuneModel.Thm.C06C07
 import PolytuneModel.Proto.Triples
 import PolytuneModel.Proto.Validate
+import PolytuneModel.Prim.AesRng
 /-! `ptmodel`: one request per line on stdin, one response per line on stdout. -/
 open PolytuneModel PolytuneModel.Buf
 
@@ -193,6 +194,14 @@ def step (st : DState) (line : String) : DState × String :=
     match parseHexBytes x with
     | some b => (st, "blake3 " ++ hexOf (Blake3.hash b))
     | none => (st, "bad-op")
+  | ["prim", "ctrseq", seed, lens] =>
+    -- a SEQUENCE of fill_bytes calls on one generator, through the stateful model of `AesRng` / `BlockRng` (C20_ctr_single_call is about its first call)
+    match parseHexBytes seed, parseNats lens with
+    | some s, some ns =>
+      let rk := Aes.expandKey s
+      let E : Nat → List UInt8 := fun c => (Aes.encryptWith rk (Aes.u128le c)).toList
+      (st, "ctrseq " ++ "|".intercalate ((AesRng.fills E 8 (AesRng.fresh 8) ns).map fun o => if o.isEmpty then "-" else hexOf o.toArray))
+    | _, _ => (st, "bad-op")
   | ["prim", "ctr", seed, n] =>
     match parseHexBytes seed, n.toNat? with
     | some s, some n => (st, "ctr " ++ hexOf (Aes.ctr s n))
